@@ -13,11 +13,11 @@ FILES = {   # file -> checks that own it
  'src/stepsize/dual_avg.rs': ['C07'], 'src/stepsize/adam.rs': ['C07'], 'src/stepsize/adapt.rs': ['C07', 'C06'],
  'src/dynamics/transformed_hamiltonian.rs': ['C02', 'C05', 'C16', 'C18'],
  'src/dynamics/state.rs': ['C03'], 'src/dynamics/hamiltonian.rs': ['C16', 'C05'],
- 'src/transform/diagonal.rs': ['C02', 'C08', 'C16'], 'src/transform/adapt/diagonal.rs': ['C08', 'C09', 'C05'], 'src/transform/adapt/low_rank.rs': ['C09'],
+ 'src/transform/diagonal.rs': ['C02', 'C08', 'C16'], 'src/transform/adapt/diagonal.rs': ['C08', 'C09', 'C05'], 'src/transform/adapt/low_rank.rs': ['C09', 'C08'],
  'src/transform/low_rank.rs': ['C02', 'C08', 'C16'],
  'src/mclmc.rs': ['C18', 'C06'], 'src/chain.rs': ['C03', 'C16', 'C06'],
  'src/math/util.rs': ['C17', 'C01'], 'src/math/cpu_math.rs': ['C17', 'C08', 'C18'],
- 'src/storage/zarr/common.rs': ['C15'], 'src/storage/zarr/sync_impl.rs': ['C15'], 'src/storage/hashmap.rs': ['C14'],
+ 'src/storage/zarr/common.rs': ['C15'], 'src/storage/zarr/sync_impl.rs': ['C15'], 'src/storage/hashmap.rs': ['C14'], 'src/storage/csv.rs': ['C14'],
  'src/sampler.rs': ['C13', 'C12', 'C16'], 'src/external_adapt_strategy.rs': ['C06', 'C05'],
 }
 OPS = [  # (regex, replacement) applied to one occurrence at a time
